@@ -188,6 +188,7 @@ pub struct Cache { pub store: Arc<Store>, pub procs: ProcCache }
 impl Cache {
 //@@ extract file=acts/src/cache/cache.rs in="impl Cache" item="fn push_task_pri" name=Cache::push_task_pri props=C11,C17
 //@@ rw R7 `p . state ( ) . into ( )` => `state_into_string(p.state())`
+//@@ rw R7 `p . env ( ) . to_string ( )` => `p.env_text()`
 //@@ spec
     requires old(st).wf()
     ensures
@@ -198,7 +199,9 @@ impl Cache {
         //# S2-process-row-patched-from-the-live-process
         save && ret is Ok ==> final(st).procs.dom().contains(task.pid@) && final(st).procs[task.pid@].end_time == task.proc.l_end()
             && final(st).procs[task.pid@].state@ == state_str(task.proc.l_state())
-            && final(st).procs[task.pid@] == (data::Proc { end_time: final(st).procs[task.pid@].end_time, state: final(st).procs[task.pid@].state, ..old(st).procs[task.pid@] }),
+            && final(st).procs[task.pid@] == (data::Proc { end_time: final(st).procs[task.pid@].end_time, state: final(st).procs[task.pid@].state, env: final(st).procs[task.pid@].env, ..old(st).procs[task.pid@] }),
+        //# S2-the-process-row-carries-the-environment-of-the-live-process [C11,C12,C13]
+        save && ret is Ok ==> final(st).procs[task.pid@].env@ == task.proc.l_env(),
         //# S2-task-row-written
         save && ret is Ok ==> final(st).tasks.dom().contains(task.pid@ + ":"@ + task.id@) && task_row_is(final(st).tasks[task.pid@ + ":"@ + task.id@], **task),
         //# S2-other-rows-untouched
